@@ -211,6 +211,8 @@ def vector(ctx, ex):
         problems = []
         if getattr(o1, 'shape', None) != (m,) or getattr(s1, 'shape', None) != (m,):
             problems.append('shapes %s / %s for a vector of length %d, expected (%d,)' % (getattr(o1, 'shape', None), getattr(s1, 'shape', None), N, m))
+        elif any(type(v).__name__ == '_Border' for v in list(o1.items()) + list(getattr(o2, 'items', lambda: [])())):
+            problems.append('an output slot comes from a convolution window that left the sequence (it depends on the boundary mode)')
         elif getattr(o2, 'shape', None) == (m, 1):
             a = [repr(reg1.resolve(Poly.of(v))[:2]) for v in o1.items()]
             b = [repr(reg2.resolve(Poly.of(v))[:2]) for v in o2.items()]
